@@ -19,21 +19,26 @@ Hypothesis ok_update : forall d k t f u tm, dict_ok d -> length t = length k -> 
 Hypothesis ok_remove : forall d k t, dict_ok d -> dict_ok (do_remove dops d k t).
 (* the layout's table of alternative syllables does not depend on the keys typed so far *)
 Hypothesis alt_stable : forall x c, so_alt sops (so_clear sops x) c = so_alt sops x c.
+(* the symbol tables the editor was created with (they never change): a category without a table has a
+   name, table indices lie inside the tables, no sub-table is open initially *)
+Variable ss0 : symbol_sel.
+Hypothesis ss0_good : ss_good ss0.
+Hypothesis ss0_fresh : ss_cursor ss0 = None.
 
 (* The cursor always lies between 0 and the buffer length (and the composition stays
    well-formed: |gaps| = |symbols|, selections non-empty, in range, pairwise disjoint) after
    EVERY history of key events and public operations, from every layout, dictionary and
    conversion oracle. *)
 Theorem C05_cursor_in_range_every_history : forall ops (e e' : editor D SY),
-  Inv dops sops dict_ok e -> run dops sops conv e ops = Ok e' ->
+  Inv dops sops dict_ok ss0 e -> run dops sops conv e ops = Ok e' ->
   cursor (com (sh e')) <= ce_len (com (sh e')) /\ wf_comp (inner (com (sh e'))).
 Proof.
   intros ops e e' I H.
-  pose proof (run_inv dops sops conv dict_ok ok_lookup ok_add ok_update ok_remove alt_stable ops e e' I H) as [[[W C] _] _].
+  pose proof (run_inv dops sops conv dict_ok ok_lookup ok_add ok_update ok_remove alt_stable ss0 ss0_good ss0_fresh ops e e' I H) as [[[W C] _] _].
   split; assumption.
 Qed.
 
-Theorem C05_initial_state : forall d s0 ab ss t0, dict_ok d -> Inv dops sops dict_ok (init_editor (SY := SY) d s0 ab ss t0).
+Theorem C05_initial_state : forall d s0 ab t0, dict_ok d -> Inv dops sops dict_ok ss0 (init_editor (SY := SY) d s0 ab ss0 t0).
 Proof. intros. now apply init_inv. Qed.
 
 End C05.
